@@ -104,6 +104,7 @@ type Exec struct {
 	lockSeq  int
 	safety   bool // generate safety obligations for the top frame
 	probing  int
+	provingLemma *Lemma
 	fuel, unfoldDepth int
 	fuelOverride int
 	autoDone     map[string]bool
